@@ -82,6 +82,7 @@ class FsExecutor(object):
             self.preopens.append(fd)
         self.next_fd = 3 + npreopen
         self.last_positional = {}
+        self.pipe_avail = {}     # (directory, name) of a FIFO -> bytes written and not yet read (all descriptors together)
 
     def set_edge(self, mode):
         """mode > 0: from now on one guest object per WASI call (chosen deterministically from mode and the call counter) is placed
@@ -232,7 +233,36 @@ class FsExecutor(object):
             self.fds[fd]['ino'] = None
         return fd
 
+    def open_fifo(self, dirfd, idx):
+        """the host puts a FIFO `pipeN` into the directory (both sides), the guest opens it with read + write rights (O_RDWR: the
+        open does not block).  Through such a descriptor sequential writes and reads move bytes, every positional or seeking call
+        is ESPIPE - whatever the POSIX calls say.  Reads are only issued while the pipe holds bytes (an empty pipe blocks)."""
+        d = self.fds[dirfd]
+        if d['closed'] or d['kind'] != 'dir' or len(d.get('wpath') or b'') > 512:
+            return None
+        self.record('open_fifo', dirfd, idx)
+        mark = len(self.history)
+        name = 'pipe%d' % idx
+        for side in (self.real, self.mirror):
+            p = os.path.join(side, d['rel'], name) if d['rel'] else os.path.join(side, name)
+            try:
+                os.mkfifo(p)
+            except OSError:
+                pass
+        try:
+            fd = self.path_open(dirfd, name, 0, True, True, False)
+        finally:
+            del self.history[mark:]
+        if fd is not None and stat.S_ISFIFO(os.fstat(self.fds[fd]['mfd']).st_mode):
+            # bytes in flight are a property of the pipe, not of the descriptor: several descriptors may be open on one FIFO
+            self.fds[fd]['fifo'] = (d['rel'], name)
+            self.pipe_avail.setdefault(self.fds[fd]['fifo'], 0)
+            self.flags.add('fifo_descriptor')
+        return fd
+
     def fd_write(self, fd, bufs):
+        if fd in self.fds and self.fds[fd].get('fifo') and self.pipe_avail[self.fds[fd]['fifo']] + sum(len(b) for b in bufs) > 4096:
+            return          # keep well below the pipe capacity: a full pipe blocks
         self.record('fd_write', fd, [b.hex() for b in bufs])
         iovs, n, _ = put_iovs(self.agent, bufs)
         self.agent.fill(RES, 16)
@@ -257,6 +287,8 @@ class FsExecutor(object):
         except OSError as e:
             err = e
         self.check_errno('fd_write(fd=%d, %d iovecs)' % (fd, len(bufs)), r, err)
+        if err is None and d.get('fifo'):
+            self.pipe_avail[d['fifo']] += want
         if err is None:
             got = self.agent.peek_u32(RES)
             if got != want:
@@ -275,7 +307,7 @@ class FsExecutor(object):
         write, one that starts at or beyond it fails with EFBIG - whatever writev(2) / pwritev(2) say"""
         import resource
         d = self.fds[fd]
-        if d['closed'] or d['kind'] != 'file' or d.get('chr'):
+        if d['closed'] or d['kind'] != 'file' or d.get('chr') or d.get('fifo'):
             return
         self.record('limited_write', fd, [b.hex() for b in bufs], offset, limit)
         mark = len(self.history)
@@ -299,7 +331,8 @@ class FsExecutor(object):
     def _dev_offset(self, fd, offset):
         # positional I/O at the far end of the offset range of a character device (/dev/null accepts any seek) is left out:
         # the lseek-based emulation and pread(2)/pwrite(2) legitimately differ there and no realistic caller depends on it
-        if self.fds[fd].get('chr') and offset >= (1 << 40):
+        # (the same for pipes: a negative off_t on a pipe is both EINVAL and ESPIPE in POSIX, which of the two is reported is not specified)
+        if (self.fds[fd].get('chr') or self.fds[fd].get('fifo')) and offset >= (1 << 40):
             return 1 << 33
         if offset >= (1 << 63):
             self.flags.add('offset>=2^63')
@@ -367,6 +400,8 @@ class FsExecutor(object):
         return r, places
 
     def fd_read(self, fd, lens):
+        if fd in self.fds and self.fds[fd].get('fifo') and (self.pipe_avail[self.fds[fd]['fifo']] <= 0 or sum(lens) == 0):
+            return          # a read from an empty pipe blocks (on both sides)
         self.record('fd_read', fd, list(lens))
         r, places = self._read_common('fd_read', fd, lens, None)
         if fd == 0:
@@ -388,6 +423,8 @@ class FsExecutor(object):
         except OSError as e:
             err = e
         self.check_errno('fd_read(fd=%d, lens=%r)' % (fd, lens), r, err)
+        if err is None and d.get('fifo'):
+            self.pipe_avail[d['fifo']] -= want
         if err is None:
             self._compare_read('fd_read', want, bufs, places)
         if self.last_positional.get(fd):
@@ -568,6 +605,8 @@ class FsExecutor(object):
         if d['mfd'] is not None:
             os.close(d['mfd'])
         d['closed'] = True
+        if d.get('fifo') and not any(x.get('fifo') == d['fifo'] and not x['closed'] for x in self.fds.values()):
+            self.pipe_avail[d['fifo']] = 0        # the last descriptor is gone: the kernel discards what the pipe held
 
     def close_std(self, which):
         """the guest closes its standard output / error: afterwards the number is as dead as any other closed descriptor, also
